@@ -77,7 +77,7 @@ def run(c):
         raise Machinery("expected %d emitted cases, got %d" % (len(algs) * len(fx) * len(replies), len(cases)))
     small = dict(consts, ReplyTypes="@{5, 13, 14, 15}")
     for mut, inv in [kv for kv in MUTATIONS.items() if not c.quick or kv[0] == "no_cert_forms"]:
-        c.mc("AgentSign", cfg_text(constants=dict(small, Mutation=mut), invariants=invs), expect=inv, name="mutation " + mut, workers=4)
+        c.mc("AgentSign", cfg_text(constants=dict(small, Mutation=mut), invariants=[inv]), expect=inv, name="mutation " + mut, workers=4)
 
     # ---- RP: spec -> code
     rnd = random.Random(c.seed)
@@ -116,8 +116,11 @@ def run(c):
         rec, (req, outcome) = batch[tid - 1], expect[tid - 1]
         got = [{k: f[k] for k in ("type", "blob", "data", "flags")} for f in rec["sent"]]
         same = got == [req] and rec["outcome"] == outcome and all(f["framed"] for f in rec["sent"])
-        if same == (tid in flagged):
-            raise Machinery("replay comparison and trace verdict disagree on %s" % describe(rec))
+        # TLC (the oracle) has the last word: only "equals what TLC emitted, yet flagged by TLC" is a harness inconsistency
+        if same and tid in flagged:
+            raise Machinery("TLC flags a trace that equals what TLC emitted: %s" % describe(rec))
+        if not same and tid not in flagged:
+            c.conformance("differs_from_emitted_unflagged", "differs from the emitted case in a way no clause covers: " + describe(rec))
     if flagged and not (c.violations or c.known_hits or c.conf):
         raise Machinery("TLC flagged %d traces but no verdict was registered" % len(flagged))
     c.rule = ("every (algorithm name, key kind, reply type) over %d names x %d key kinds x %d reply types (TLC-enumerated) + seeded random "
